@@ -49,7 +49,15 @@ def handle (op : String) (c i : Json) : Except String (Json × String) := do
     let m := exJson (ArbId.fromCompound n) fun a => J.ofList [J.ofNat a.id, Json.bool a.ext, J.ofNat a.toCompound]
     -- spec: compound integers of valid identifiers map to that identifier and back to the same integer
     let isCompound := n < 2 ^ 11 || (2 ^ 31 ≤ n && n < 2 ^ 31 + 2 ^ 29)
-    let s := if !isCompound then "ok" else
+    -- an integer below 2^29 is a standard identifier as it stands: beyond 11 bits it is out of range and must be refused
+    -- (integers with bit 29 or 30 set are left unjudged: those bits are masked off on purpose - SocketCAN keeps its RTR/ERR
+    -- flags there and DBC its pseudo message)
+    let s := if !isCompound then
+        (if n < 2 ^ 29 then
+          match i.getObjVal? "ok" with
+          | .ok _ => "fail: an integer beyond 11 bits without the extended flag was turned into a standard identifier"
+          | .error _ => "ok"
+        else "ok") else
       match i.getObjVal? "ok" with
       | .ok v =>
         let ext := n ≥ 2 ^ 31
